@@ -152,6 +152,7 @@ def gen_and_replay(ctx, acc, name, cfg, simulate=None, depth=None, keep=None, ti
     acc.bad += [(hp, b) for b in bad]
     acc.samples += [short(s) for s in smp[:1]]
     exhaustive = simulate is None and keep is None
+    print("[C12] replayed %s: %d histories (tlc %.0fs, replay %.0fs, %d flagged)" % (name, n, r.wall, wall, len(bad)), flush=True)
     acc.sets.append({"set": name, "histories": n, "generated": tot, "exhaustive": exhaustive,
                      "tlc_s": round(r.wall, 1), "replay_s": round(wall, 1), "bad": len(bad)})
     if not exhaustive:
@@ -176,6 +177,7 @@ def design(ctx, acc, name, cfg, expect=None, timeout=1500, count=True):
         acc.states += r.distinct
         acc.trans += r.generated
     acc.design.append(rec)
+    print("[C12] design %s: %d distinct / %d generated, %.0fs, violated=%s" % (name, r.distinct, r.generated, r.wall, r.violated), flush=True)
     return r
 
 
@@ -283,15 +285,16 @@ def run(ctx):
     else:
         gen_and_replay(ctx, acc, "atomic_n3_d4", gen_cfg(3, 1, 1, 1, 1, ALL_TOPOS, 5, True))
         gen_and_replay(ctx, acc, "atomic_n3_d5", gen_cfg(3, 1, 1, 0, 1, ("hub", "skew"), 6, True))
-        gen_and_replay(ctx, acc, "atomic_n2_d6", gen_cfg(2, 2, 1, 1, 1, ALL_TOPOS, 7, True))
-        gen_and_replay(ctx, acc, "msg_n3_d6", gen_cfg(3, 1, 1, 1, 2, ("skew", "hub"), 7, False))
-        gen_and_replay(ctx, acc, "msg_n2_d9", gen_cfg(2, 1, 1, 1, 2, ("skew", "out", "self"), 10, False))
-        gen_and_replay(ctx, acc, "msg_n3_d8_msgonly", gen_cfg(3, 1, 0, 0, 2, ("skew",), 9, False), keep=0.5)
+        gen_and_replay(ctx, acc, "atomic_n2_d6", gen_cfg(2, 1, 1, 1, 1, ALL_TOPOS, 7, True))
+        gen_and_replay(ctx, acc, "msg_n3_d6", gen_cfg(3, 1, 1, 1, 2, ("skew",), 7, False))
+        gen_and_replay(ctx, acc, "msg_n3_d6_hub", gen_cfg(3, 1, 0, 0, 2, ("hub",), 7, False))
+        gen_and_replay(ctx, acc, "msg_n2_d9", gen_cfg(2, 1, 0, 0, 2, ("skew", "out"), 10, False))
+        gen_and_replay(ctx, acc, "msg_n3_d8_msgonly", gen_cfg(3, 1, 0, 0, 2, ("skew",), 9, False), keep=0.25)
         # deeper / wider by simulation
         gen_and_replay(ctx, acc, "sim_atomic_n4_d12", gen_cfg(4, 2, 1, 1, 1, ALL_TOPOS, 13, True),
-                       simulate="num=40000", depth=14)
+                       simulate="num=20000", depth=14)
         gen_and_replay(ctx, acc, "sim_msg_n3_d14", gen_cfg(3, 2, 1, 1, 2, ALL_TOPOS, 15, False),
-                       simulate="num=40000", depth=16)
+                       simulate="num=20000", depth=16)
         gen_and_replay(ctx, acc, "sim_msg_n4_d16", gen_cfg(4, 1, 1, 1, 2, ("hub", "skew", "self"), 17, False),
                        simulate="num=20000", depth=18)
 
